@@ -160,6 +160,15 @@ def run_case(ctx, case):
             g = np.asarray(got)
             ok, d = R.close(g, np.asarray(want), np.asarray(wantB), ref.dtype, eps=max(eps, R.eps_of(g.dtype) if g.dtype.kind in "fc" else 0))
             ctx.check("entries", ok, site=site, preds=preds, detail={"detail": d, "ids": ids})
+            if ok and g.ndim >= 1 and ctx.scribble(g, A):
+                # the row / column / entries handed back are the caller's: overwritten, then asked for again
+                got2 = ctx.call(lambda: A[key if len(key) > 1 else key[0]])
+                if is_err(got2):
+                    ctx.check("entries-again-after-caller-overwrote-result", False, site=site, preds=dict(preds, error=got2.type), detail={"error": repr(got2), "ids": ids})
+                else:
+                    g2_ = np.asarray(got2)
+                    ok_, d_ = R.close(g2_, np.asarray(want), np.asarray(wantB), ref.dtype, eps=max(eps, R.eps_of(g2_.dtype) if g2_.dtype.kind in "fc" else 0))
+                    ctx.check("entries-again-after-caller-overwrote-result", ok_, site=site, preds=preds, detail={"detail": d_, "ids": ids})
             continue
         if tuple(got.shape) != tuple(want.shape):
             ctx.check("sub-operator-shape", False, site=site, preds=preds, detail={"got": list(got.shape), "want": list(want.shape), "ids": ids})
